@@ -731,8 +731,53 @@ fn both_end(src: &mut String, hand: &mut String) {
     hand.push_str("\tret\n");
 }
 
+/// "Called any number of times": tens and hundreds of thousands of calls in one source, compared with the
+/// same lines written out.
+fn many_calls(ctx: &Ctx) {
+    let counts: Vec<usize> = if ctx.tier == fw::Tier::Thorough { vec![33_000, 66_000, 140_000, 270_000, 1_050_000] } else { vec![66_000, 140_000] };
+    let mut jobs: Vec<(String, String, String)> = vec![];
+    for n in counts.iter() {
+        let n = *n;
+        jobs.push((format!("one-line-body-with-parameter/{}", n), format!(".macro step\n\tdec @0\n.endm\n{}", "\tstep r16\n".repeat(n)), "\tdec r16\n".repeat(n)));
+        jobs.push((format!("two-line-body/{}", n), format!(".macro pair\n\tnop\n\tinc r1\n.endm\n{}", "\tpair\n".repeat(n / 2)), "\tnop\n\tinc r1\n".repeat(n / 2)));
+        jobs.push((
+            format!("wrapper-calling-two-others/{}", n),
+            format!(".macro one\n\tinc @0\n.endm\n.macro two\n\tdec @0\n.endm\n.macro both\n\tone @0\n\ttwo @0\n.endm\n{}", "\tboth r20\n".repeat(n / 3)),
+            "\tinc r20\n\tdec r20\n".repeat(n / 3),
+        ));
+        jobs.push((
+            format!("two-macros-in-turn-with-data/{}", n),
+            format!(".macro a\n.dw @0\n.endm\n.macro b\n.db @0, @1\n.endm\n{}", "\ta 0x1234\n\tb 1, 2\n".repeat(n / 2)),
+            ".dw 0x1234\n.db 1, 2\n".repeat(n / 2),
+        ));
+        jobs.push((
+            format!("calls-between-segment-switches/{}", n),
+            format!(".macro step\n\tdec @0\n.endm\n{}", "\tstep r16\n\tstep r17\n.dseg\n.cseg\n".repeat(n / 2)),
+            "\tdec r16\n\tdec r17\n".repeat(n / 2),
+        ));
+    }
+    fw::par_items(&jobs, |_, (name, with_calls, written_out)| {
+        let a = fw::build_str(with_calls);
+        let b = fw::build_str(written_out);
+        ctx.eval(1);
+        ctx.count("many_calls_builds", 1);
+        let same = match (&a, &b) {
+            (Outcome::Ok(x), Outcome::Ok(y)) => x.code == y.code && x.eeprom == y.eeprom && x.ram_filling == y.ram_filling && !x.code.is_empty(),
+            _ => false,
+        };
+        if !same {
+            ctx.violation(
+                format!("macro/many-calls/{}", name.split('/').next().unwrap_or("")),
+                format!("{} calls ({}): {} - written out: {}", name.rsplit('/').next().unwrap_or(""), name.split('/').next().unwrap_or(""), fw::clip(&format!("{:?}", a.brief()), 140), fw::clip(&format!("{:?}", b.brief()), 60)),
+                json!({"source": with_calls, "hand_expanded": written_out, "many_calls": name}),
+            );
+        }
+    });
+}
+
 pub fn run(ctx: &Ctx) -> i32 {
     probes(ctx);
+    many_calls(ctx);
     placing_bodies(ctx, ctx.tier.pick(400u64, 200_000u64));
     let n = ctx.tier.pick(3_000u64, 3_000_000u64);
     fw::par_for(n, 32, |i| {
